@@ -65,6 +65,24 @@ def gen_wild(rng):
     return bytes(out)
 
 
+def gen_long(rng):
+    """lines far longer than the printer's 2056-byte staging buffer and than most block sizes: three short messages first (so
+    that block zero is acceptable at every size, see F-C12a), then messages whose lines run to 2..70 KB"""
+    import world
+    srcs = []
+    for k in range(rng.choice((1, 1, 2))):
+        head_p = world.TextLogParams(n_msgs=3, src_letter=bytes([76 + k]), cont_p=0.0, body_len=(0, 20), long_p=0.0)
+        head, hm, _ = world.gen_text_log(rng, head_p)
+        t_next = hm[-1].instant + 1_000_000_000
+        tail_p = world.TextLogParams(n_msgs=rng.randint(1, 6), src_letter=bytes([78 + k]), cont_p=rng.choice((0.0, 0.4)), long_p=0.0,
+                                     body_len=rng.choice(((1900, 2300), (2000, 9000), (2040, 2080), (3000, 70000))), t0=t_next,
+                                     steps=(1_000_000_000,))
+        tail, tm, _ = world.gen_text_log(rng, tail_p)
+        content = head + tail
+        srcs.append(merge.Source("l%d.log" % k, "text", hm + tm, content, content))
+    return srcs
+
+
 def gen_case(rng):
     n = rng.choice((1, 1, 2, 3))
     target = rng.choice((64, 100, 128, 256, 512))
@@ -85,11 +103,17 @@ def run_case(seed, i, tier):
             srcs.append(merge.Source("w%d.log" % k, "text", [], content, content))
         base_opts = ["--color", "never", "--tz-offset", "+00:00"] + rng.choice(([], ["--separator", "<#>"], ["-u", "-d", "%s|"], ["-n", "--separator", "<#>", "-u"]))
         expected = None
+    elif i % 4 == 1:
+        srcs = gen_long(rng)
+        base_opts = ["--color", "never", "--tz-offset", "+00:00"]
+        expected = merge.model_stdout(srcs)
     else:
         srcs = gen_case(rng)
         base_opts = ["--color", "never", "--tz-offset", "+00:00"]
         expected = merge.model_stdout(srcs)
     sizes = list(FIXED)
+    if i % 4 == 1:
+        sizes += [2048, 2055, 2056, 2057, 2100, 8192]      # around the printer's staging buffer
     ds = derived_sizes(rng, srcs)
     rng.shuffle(ds)
     sizes += ds[:6 if tier == "quick" else 16]
@@ -111,6 +135,8 @@ def run_case(seed, i, tier):
         return cr
     if wild:
         cr.probes["wild_content_family"] += 1
+    if i % 4 == 1:
+        cr.probes["long_line_family"] += 1
     for bsz in sizes:
         if wild:
             # F-C12a steering for this family: the first line (<= 70 bytes) must end inside block zero, and a block zero
@@ -161,7 +187,8 @@ def replay(rp):
     return (rp.get("class") in cl) if rp.get("class") else bool(cl)
 
 
-RULE = ("one case = 1..3 generated text logs (boundary-targeted, all containers) printed at the default block size and "
+RULE = ("one case = 1..3 generated text logs (boundary-targeted, all containers; every 4th case lines of 2..70 KB; every 4th "
+        "case 'wild' content with a second timestamp notation inside messages) printed at the default block size and "
         "at ~8 (quick) / all (thorough) of {64,65,100,127,128,255,256,1000,4096,65536,0xFFFFFF} + content-derived "
         "sizes (line length +-1, message length +-1, file size +-1, file size/k), decimal and hex spellings; "
         "non-trivial = a run at a non-default size; distinct = (scenario digest, block size)")
